@@ -66,7 +66,7 @@ func lateSQLCase(rng *RNG, kind int) (string, string) {
 	})
 	quiet := func() int {
 		last, stable := -1, 0
-		for i := 0; i < 60 && stable < 6; i++ {
+		for i := 0; i < 80 && stable < 8; i++ {
 			time.Sleep(100 * time.Millisecond)
 			mu.Lock()
 			n := len(got)
